@@ -33,6 +33,9 @@ def case_strategy(draw, ctx):
         base["strategy"] = "FunctionRFA"
         base["kw"] = {}
         base["poly"] = coef
+        # how the user's function treats its argument: numpy-polymorphic polynomial, scalar-only (math module),
+        # or a constant that returns a plain float whatever it is given (e.g. "mean level")
+        base["fun_kind"] = draw(st.sampled_from(["poly", "scalar-only", "constant", "mean-of-y"]))
         return base
     return draw(rfagen.rfa_case(ctx))
 
@@ -43,7 +46,17 @@ def _build(case):
         coef = case["poly"]
         x0 = float(case["x"][0])
 
+        kind = case.get("fun_kind", "poly")
+
         def supplier(xx, yy):
+            import math
+            if kind == "scalar-only":
+                return lambda t: coef[0] * math.sin(float(t) - x0) + len(coef)
+            if kind == "constant":
+                return lambda t: float(coef[0])
+            if kind == "mean-of-y":
+                m_ = float(np.mean(yy))
+                return lambda t: m_
             return lambda t: sum(c * (t - x0) ** i for i, c in enumerate(coef))
         return rfa_mod.FunctionRFA(x, y, case["n"], sampling_function_supplier=supplier), x, y, \
             dict(rfa_class=rfa_mod.FunctionRFA, sampling_function_supplier=supplier)
@@ -82,6 +95,8 @@ def body(ctx, case):
         getattr(w, op)(arg)
         rfagen.check_pair(w.get(), length, f"Weaver after {op}({arg!r})")
     cls = rfagen.classes(case)
+    if case["strategy"] == "FunctionRFA":
+        cls.append("fun:" + case.get("fun_kind", "poly"))
     nontrivial = (not gens.is_uniform(case["x"])) or bool(case["kw"]) or case["strategy"] == "FunctionRFA"
     ctx.record(case, cls, nontrivial)
 
